@@ -123,7 +123,7 @@ def snapshot(g, res, names=(), views=()):
     """list(namespaces()), the namespace->prefix dictionary, and whether the public
     lookups store.namespace / store.prefix / Graph.namespaces (through g and through every
     other graph object in views) agree with them"""
-    store = g.store
+    store = g.namespace_manager.store  # a graph may have been handed a manager over another graph's store
     lst = [(p, str(n)) for p, n in store.namespaces()]
     p2n, n2p = store_dicts(store)
     rev = [(str(n), p) for n, p in n2p.items()]
@@ -299,12 +299,19 @@ class C17(Suite):
                 ops.append(["expand", rng.choice([p + ":" + rng.choice(locs), rng.choice(locs), p + ":"])])
             else:
                 ops.append(["reset"])
-        return {"store": "simple" if rng.random() < 0.15 else "memory", "ops": ops}
+        r = rng.random()
+        return {"store": "simple" if r < 0.15 else "external" if r < 0.27 else "memory", "ops": ops}
 
     # ------------------------------------------------------------ implementation
     def run_impl(self, case):
         store = SimpleMemory() if case["store"] == "simple" else Memory()
         g = Graph(store=store, bind_namespaces="none")
+        if case["store"] == "external":
+            # the documented sharing: g.namespace_manager = NamespaceManager(other_graph); the bindings live in
+            # the other graph's store, g.bind / g.qname / g.namespaces() must all go there
+            shared = NamespaceManager(g, bind_namespaces="none")
+            g = Graph(bind_namespaces="none")
+            g.namespace_manager = shared
         names = sorted({s for s in case_strings(case)})
         obs = []
         for op in case["ops"]:
@@ -1067,7 +1074,7 @@ def ser_calls(g):
     calls = []
     for s_, p_, o_ in g.triples((None, None, None)):
         calls.append([str(s_), False])
-        if p_ != RDF.type:
+        if p_ != RDF.type:  # a keyword: never looked at
             calls.append([str(p_), True])
         if isinstance(o_, URIRef):
             calls.append([str(o_), False])
@@ -1106,7 +1113,12 @@ class C17Serial(Suite):
             r = rng.random()
             o = iri() if r < 0.6 else ["lit", rng.choice(SER_DT + [None])]
             triples.append([iri() or "h:e/x", "rdf:type" if rng.random() < 0.15 else (iri() or "h:e/p"), o])
-        case = {"setup": setup, "triples": triples}
+        base = None
+        if rng.random() < 0.35:
+            base = rng.choice(["h:e/", "h:e/a", "h:f/", "u:x:"])
+            if rng.random() < 0.5:  # a hash namespace directly below the base, used as predicate
+                triples.append([iri() or "h:e/x", base + rng.choice(["v#p", "a#x", "v#", "p"]), iri() or "h:e/o"])
+        case = {"setup": setup, "triples": triples, "base": base}
         case["calls"] = ser_calls(ser_graph(case))
         return case
 
@@ -1142,7 +1154,7 @@ class C17Serial(Suite):
         ser.getQName, ser.startDocument = wrapped, sd
         out = io.BytesIO()
         try:
-            ser.serialize(out)
+            ser.serialize(out, base=case.get("base"))
             text = out.getvalue().decode("utf-8")
             raised = False
         except Exception:  # noqa: BLE001
@@ -1162,7 +1174,7 @@ class C17Serial(Suite):
         flat = [o for o in case["setup"]] + [["compute", u, g] for u, g in case["calls"]]
         cats = clist(ctuple(cN(c), cN(k)) for c, k in cat_table({"ops": flat}))
         return ("{| sc_cats := " + cats + "; sc_setup := " + clist(c_op(o) for o in case["setup"])
-                + "; sc_calls := " + clist(ctuple(cstr(u), cbool(g)) for u, g in case["calls"]) + " |}")
+                + "; sc_base := " + copt(case.get("base"), cstr) + "; sc_calls := " + clist(ctuple(cstr(u), cbool(g)) for u, g in case["calls"]) + " |}")
 
     def coq_obs(self, obs):
         if obs.get("bad_order") or not obs.get("api", True):
@@ -1183,7 +1195,7 @@ class C17Serial(Suite):
         return bool(obs.get("ns"))
 
     def features(self, case, obs):
-        f = {"triples": len(case["triples"]), "calls": len(case["calls"])}
+        f = {"triples": len(case["triples"]), "calls": len(case["calls"]), "with_base": int(bool(case.get("base")))}
         if obs.get("bad_order"):
             return f
         f["rewritten_prefixes"] = len(obs["rw"])
@@ -1196,11 +1208,11 @@ class C17Serial(Suite):
 
     def shrink(self, case):
         for i in range(len(case["triples"])):
-            c = {"setup": case["setup"], "triples": case["triples"][:i] + case["triples"][i + 1:]}
+            c = {"setup": case["setup"], "triples": case["triples"][:i] + case["triples"][i + 1:], "base": case.get("base")}
             c["calls"] = ser_calls(ser_graph(c))
             yield c
         for i in range(len(case["setup"])):
-            c = {"setup": case["setup"][:i] + case["setup"][i + 1:], "triples": case["triples"]}
+            c = {"setup": case["setup"][:i] + case["setup"][i + 1:], "triples": case["triples"], "base": case.get("base")}
             c["calls"] = ser_calls(ser_graph(c))
             yield c
 
